@@ -199,7 +199,9 @@ func expectNext(tr *tokenReader, kinds ...tokenKind) ([]token, error) {
 }
 
 func optNewline(tr *tokenReader) {
-	tr.Next()
+	if !tr.Next() {
+		return
+	}
 	if tr.Token().kind != tokenKindNewline {
 		tr.UnNext()
 	}
@@ -658,7 +660,9 @@ func readUnion(tr *tokenReader) (Union, error) {
 
 			// This is a close curly-- we must advance past it or the union
 			// will read it and believe it is complete
-			tr.Next()
+			if !tr.Next() {
+				return union, readError(tr.nextToken, "union definition ended early")
+			}
 			skipEndOfLineComments(tr)
 			optNewline(tr)
 
